@@ -11,7 +11,7 @@ from ..px import const, is_const, is_agg, agg_get, mk_binop, fmt_term, TY
 from .. import px as P
 from .. import facts as F
 from .. import census as CEN
-from .common import where, short, final_read, impl_fn, cons_zone
+from .common import where, short, final_read, impl_fn, cons_zone, boolish
 
 
 def find_list(ctx):
@@ -22,7 +22,7 @@ def find_list(ctx):
             continue
         fs = a["variants"][0]["fields"]
         tys = sorted(f["ty"] for f in fs)
-        if len(fs) == 2 and any(t.endswith("[u8]") and t.startswith("&") for t in tys) and "bool" in tys:
+        if len(fs) == 2 and any(t.endswith("[u8]") and t.startswith("&") for t in tys) and any(boolish(ctx, x) for x in tys):
             nx = impl_fn(ctx, "std::iter::Iterator", a["path"], "next")
             if nx:
                 cands.append((a, nx[0]))
@@ -30,7 +30,7 @@ def find_list(ctx):
         raise FailClosed("entity-tag list iterator (struct {&[u8], bool} implementing Iterator) not found uniquely")
     a, nx = cands[0]
     rem = [f["name"] for f in a["variants"][0]["fields"] if f["ty"].endswith("[u8]")][0]
-    flag = [f["name"] for f in a["variants"][0]["fields"] if f["ty"] == "bool"][0]
+    flag = [f["name"] for f in a["variants"][0]["fields"] if boolish(ctx, f["ty"])][0]
     return a["path"], nx, rem, flag
 
 
